@@ -455,5 +455,11 @@ Definition run_dedup_wf (p h : graph) (ms : list mapping) : tok := L [ run_dedup
 (** every match is defined on nodes of the rule centre (premise of C11_prune_complete_aut) *)
 Definition dom_ok (rc : graph) (raw : list mapping) : bool :=
   forallb (fun m => forallb (fun ph => LGraph.mem (fst ph) (node_ids rc)) m) raw.
+(** the statement of C11_prune_complete as a computation: every raw match is a kept match, up to item order and up to
+    one of the rule automorphisms (the harness evaluates the same test on the implementation's lists) *)
+Definition rep_ok (rc : graph) (raw : list mapping) : bool :=
+  let kept := prune (fun m : mapping => m) rc raw in
+  let A := rule_auts rc in
+  forallb (fun x => existsb (fun y => set_eqb x y || existsb (fun s => set_eqb x (act s y)) A) kept) raw.
 Definition run_prune_wf (rc : graph) (raw : list mapping) : tok :=
-  L [ run_prune rc raw; tbool (wfb rc); tbool (dom_ok rc raw) ].
+  L [ run_prune rc raw; tbool (wfb rc); tbool (dom_ok rc raw); tbool (rep_ok rc raw) ].
